@@ -48,14 +48,14 @@ theorem wf_sorted (h : a.WellFormed) :
   obtain ⟨dlo, hlo⟩ := h.minFirst
   obtain ⟨dhi, hhi⟩ := h.maxLast
   have hmem : (a.default, dd) ∈ a.nodes := by
-    simp only [AxisDef.nodes, Plm.new, List.mem_mergeSort]
+    simp only [AxisDef.nodes, Plm.new, mem_sortPts]
     exact List.mem_of_getElem? hdd
   have hS : Sorted a.nodes a.min a.default a.max dlo dd dhi := ⟨h.sorted, hmem, hlo, hhi⟩
   have e2 : a.designDefault = dd := by simp [AxisDef.designDefault, hdd]
   -- the designs of the examples are the designs of the sorted vertices
   have hmemd : ∀ d, d ∈ a.mappings.map (·.2) ↔ ∃ n ∈ a.nodes, n.2 = d := by
     intro d
-    simp only [AxisDef.nodes, Plm.new, List.mem_mergeSort, List.mem_map]
+    simp only [AxisDef.nodes, Plm.new, mem_sortPts, List.mem_map]
   have e1 : a.designMin = dlo := by
     unfold AxisDef.designMin
     cases hm : a.mappings.map (·.2) with
